@@ -28,11 +28,12 @@ const (
 	Oversized
 	CutBody
 	SlowBody
+	LongLine
 	numFaults
 )
 
 // Names of the fault kinds.
-var Names = [...]string{"ok", "conn-error", "stall", "404", "500", "empty-body", "oversized", "cut-body", "slow-body"}
+var Names = [...]string{"ok", "conn-error", "stall", "404", "500", "empty-body", "oversized", "cut-body", "slow-body", "long-line"}
 
 // Origin serves resources by URL path.
 type Origin struct {
@@ -126,11 +127,20 @@ func (o *Origin) RoundTrip(req *http.Request) (resp *http.Response, err error) {
 		}
 
 		return mk(http.StatusOK, &cutReader{data: []byte(content[:k])}, int64(len(content))), nil
+	case LongLine:
+		// The whole resource followed by one line of param octets, as a
+		// minified error page or a broken export has them.
+		return mk(http.StatusOK, plain(LongLineBody(content, param)), int64(len(content)+param+2)), nil
 	case SlowBody:
 		return mk(http.StatusOK, &slowReader{o: o, path: path, data: []byte(content), chunk: 1 + param%64}, int64(len(content))), nil
 	}
 
 	return mk(http.StatusOK, plain(content), int64(len(content))), nil
+}
+
+// LongLineBody is the body of a LongLine response.
+func LongLineBody(content string, n int) (body string) {
+	return content + "\n" + string(bytes.Repeat([]byte("x"), n)) + "\n"
 }
 
 // cutReader delivers its data and then fails like a connection that was cut.
